@@ -149,6 +149,21 @@ def run(F, rep):
     rep.check('mInternalVariables' in members and 'mIsExternal' in members and 'mExternalVariables' not in members, 'C20.E1', 'hasExternalVariables', am.where(writes[0]),
               'hasExternalVariables is computed from %s' % sorted(members), 'some internal variable of this model has mIsExternal')
 
+    rep.rule('C20.V1', 'a variable that is reported as not usable as an external variable (the variable of integration) is unmarked on that path: the branch that cites ANALYSER_EXTERNAL_VARIABLE_VOI clears mIsExternal, '
+                       'otherwise it is published as an EXTERNAL variable next to being the variable of integration')
+    cites = [a for a in am.walk() if a.get('k') == 'Bin' and a.get('op') == '=' and any(x.get('k') == 'Ref' and x.get('n') == 'ANALYSER_EXTERNAL_VARIABLE_VOI' for x in walk(a['c'][1]))]
+    if len(cites) != 1:
+        raise AnalysisBroken('analyseModel: citation of ANALYSER_EXTERNAL_VARIABLE_VOI vanished (%d)' % len(cites))
+    br = None
+    for anc in am.ancestors(cites[0]):
+        if anc.get('k') == 'If' and 'isVoi' in render(role(anc, 'cond')) and any(x is cites[0] for x in walk(role(anc, 'then') or {})):
+            br = role(anc, 'then')
+            break
+    if br is None:
+        raise AnalysisBroken('analyseModel: the branch of the variable of integration vanished')
+    clears = [a for a in walk(br) if a.get('k') == 'Bin' and a.get('op') == '=' and render(a['c'][0]).endswith('mIsExternal') and a['c'][1].get('k') == 'Bool' and not a['c'][1].get('v')]
+    rep.check(bool(clears), 'C20.V1', 'voi-unmarked', am.where(cites[0]), 'the variable of integration is reported as unusable but stays marked external', 'mIsExternal cleared in the same branch')
+
     rep.rule('C20.R1', 'isStateRateBased marks an equation as checked BEFORE it descends into the equation\'s dependencies (user-supplied dependencies of external variables can be cyclic: a depends on b, b on a)')
     isr = F.fn1('Analyser::AnalyserImpl::isStateRateBased')
     recs = [c for c in isr.walk() if c.get('k') == 'Call' and isr.key in F.callee_keys(c)]
